@@ -43,6 +43,8 @@ func init() {
 			{ID: "C14.22", Desc: "the walk callback of the listing returns fs.SkipDir for directories at most", Run: func(c *Ctx) { ruleWalkSkipsFilesWithNil(c, "C14.22") }, MinSites: 1},
 			{ID: "C14.23", Desc: "values of any length come back from the encrypted backend (minimum ciphertext length from the AEAD)", Run: func(c *Ctx) { ruleCiphertextMinLength(c, "C14.23") }, MinSites: 1},
 			{ID: "C14.24", Desc: "the repository's error sentinels are matched with errors.Is", Run: func(c *Ctx) { ruleSentinelsByErrorsIs(c, "C14.24") }, MinSites: 1},
+			{ID: "C14.25", Desc: "the memory backend stores a copy of its own of every value", Run: func(c *Ctx) { ruleStoredValueIsFresh(c, "C14.25") }, MinSites: 1},
+			{ID: "C14.26", Desc: "an absent key reports the not-exist error also with update_mtime (the read comes first)", Run: func(c *Ctx) { ruleReadComesFirstInGet(c, "C14.26") }, MinSites: 1},
 		},
 	})
 }
